@@ -175,8 +175,13 @@ def parses_as_module(text):
 # ---------------------------------------------------------------------------------------------
 # Documents
 
-T_COLS = [('A', 'Text'), ('AA', 'Text'), ('B', 'Ref:C'), ('R', 'RefList:C'), ('N', 'Numeric'), ('Ch', 'ChoiceList')]
+# T references C and D, which have same-named columns: the same condition text on T.B (Ref:C) and T.B2 (Ref:D) must be
+# renamed differently (choice.X belongs to the referenced table); T.S references T itself
+T_COLS = [('A', 'Text'), ('AA', 'Text'), ('B', 'Ref:C'), ('R', 'RefList:C'), ('N', 'Numeric'), ('Ch', 'ChoiceList'),
+          ('B2', 'Ref:D'), ('R2', 'RefList:D'), ('S', 'Ref:T')]
 C_COLS = [('A', 'Text'), ('B', 'Text'), ('Name', 'Text')]
+D_COLS = [('A', 'Text'), ('B', 'Text'), ('Name', 'Text'), ('AA', 'Text')]
+TABLE_COLS = {'T': T_COLS, 'C': C_COLS, 'D': D_COLS}
 USER_ATTR = {'name': 'Cust', 'tableId': 'C', 'lookupColId': 'A', 'charId': 'Email'}
 
 
@@ -194,9 +199,12 @@ def build_doc(spec):
   ap = lambda *acts: gristenv.apply(e, list(acts))
   ap(['AddTable', 'T', [{'id': c, 'type': t, 'isFormula': False} for c, t in T_COLS]])
   ap(['AddTable', 'C', [{'id': c, 'type': t, 'isFormula': False} for c, t in C_COLS]])
-  out = ap(['BulkAddRecord', '_grist_ACLResources', [None, None, None],
-            {'tableId': ['*', 'T', 'C'], 'colIds': ['*', spec['colids']['T'], spec['colids']['C']]}])
-  star, res_t, res_c = out.retValues[0]
+  ap(['AddTable', 'D', [{'id': c, 'type': t, 'isFormula': False} for c, t in D_COLS]])
+  out = ap(['BulkAddRecord', '_grist_ACLResources', [None, None, None, None],
+            {'tableId': ['*', 'T', 'C', 'D'],
+             'colIds': ['*', spec['colids']['T'], spec['colids']['C'], spec['colids'].get('D', '*')]}])
+  star, res_t, res_c, res_d = out.retValues[0]
+  resource_of = {'T': res_t, 'C': res_c, 'D': res_d}
   # rules are created in the order of the list, so list order = row-id order; an item {'attr': {...}} is a rule
   # that defines a user attribute.  Specs without such items get the default attribute rule first.
   if not any('attr' in r for r in spec['acl_rules']):
@@ -205,7 +213,7 @@ def build_doc(spec):
     if 'attr' in r:
       ap(['AddRecord', '_grist_ACLRules', None, {'resource': star, 'userAttributes': json.dumps(r['attr'])}])
       continue
-    res = res_t if r['table'] == 'T' else res_c
+    res = resource_of[r['table']]
     if r.get('raw'):
       rid = ap(['AddRecord', '_grist_ACLRules', None, {'resource': res, 'aclFormula': ''}]).retValues[0]
       ap(['ApplyDocActions', [['UpdateRecord', '_grist_ACLRules', rid, {'aclFormula': r['formula']}]]])
@@ -218,8 +226,8 @@ def build_doc(spec):
       ap(['ApplyDocActions', [['UpdateRecord', '_grist_Tables_column', ref, {'widgetOptions': wo}]]])
     else:
       ap(['UpdateRecord', '_grist_Tables_column', ref, {'widgetOptions': wo}])
-  tref = e.docmodel.get_table_rec('T').id
   for t in spec['triggers']:
+    tref = e.docmodel.get_table_rec(t.get('table', 'T')).id
     cond = {'text': t['formula']} if t['mode'] == 'text' else {'config': {'customExpression': t['formula']}}
     if t.get('raw'):
       rid = ap(['AddRecord', '_grist_Triggers', None, {'tableRef': tref, 'eventTypes': ['L', 'add']}]).retValues[0]
